@@ -194,7 +194,8 @@ def main(argv):
         "coverage": {
             "obligations": max(nthm, 1),
             "discharged": discharged,
-            "checker_cmd": "cd lean && lake build && lake env .lake/build/bin/audit " + " ".join(mod.LEAN_MODULES),
+            "checker_cmd": "cd lean && lake build " + " ".join("+" + m for m in mod.LEAN_MODULES) + " && lake env .lake/build/bin/audit " + " ".join(mod.LEAN_MODULES) + " (thorough: + lake env leanchecker ...)",
+            "stated_and_checked_per_case_but_not_theorems": list(getattr(mod, "NOT_THEOREMS", [])),
             "trusted_base": TRUSTED_COMMON + list(getattr(mod, "TRUSTED", [])),
             "theorems": [{"name": t["theorem"], "axioms": t["axioms"]} for t in aud["theorems"]],
             "evaluations": agg["n"] + searched,
